@@ -74,8 +74,10 @@ def main():
                     results.append((sd, pf, prop, verdict))
                     sys.stdout.flush()
                 # restore generated params in the lean copy for the next patch
-                shutil.copy(os.path.join(VERIF, "lean", "Rl4co", "Generated", "Params.lean"),
-                            os.path.join(lean_copy, "Rl4co", "Generated", "Params.lean"))
+                gdir = os.path.join(VERIF, "lean", "Rl4co", "Generated")
+                for fn in os.listdir(gdir):
+                    if fn.endswith(".lean"):
+                        shutil.copy(os.path.join(gdir, fn), os.path.join(lean_copy, "Rl4co", "Generated", fn))
     finally:
         if not a.keep:
             shutil.rmtree(base, ignore_errors=True)
